@@ -59,6 +59,9 @@ class World:
         self.render_data = st.new("RenderData", {"finalized": z3.Bool("data_finalized0"), "render_cls": ClassV("MyRenderable"), "fin_calls": z3.IntVal(0)})
         self.renderable = st.new("MyRenderable", {"frame_count": self.N if definite else self.FrameCount.d["INDEFINITE"], "animated": True,
                                                   "_frame": z3.Int("renderable_frame0"),
+                                                  # the raw attribute behind the `frame_count` property: a renderable may postpone
+                                                  # computing its frame count, the property is what resolves it
+                                                  "_frame_count": self.FrameCount.d["POSTPONED"] if "POSTPONED" in self.FrameCount.d else None,
                                                   # the renderable's OWN render size: unrelated to the size this iteration renders at
                                                   # (set_render_size changes only the iteration's data)
                                                   "render_size": size_rec(z3.Int("renderable_own_w"), z3.Int("renderable_own_h"))})
@@ -536,7 +539,31 @@ def size_cases():
                        And(k != "raise", Eq(s.H(W.rdata)["size"], (w, h)), Eq(it["_padded_size"], (PW(pid, w, h), PH(pid, w, h))),
                            same_state(W, s, snap, ("size", "psize"))), prop="C08", kind="post")
         return dict(render_size=size_rec(w, h)), check
-    return [("size", setup)]
+
+    def setup_aligned(W, eng, st):
+        """the padding in effect is an AlignedPadding with absolute minimum dimensions: its padded size is max(minimum, render size)
+        per axis (contract of AlignedPadding.get_padded_size, C05) - whatever the new render size is, on both axes independently"""
+        mw, mh = z3.Ints("min_w min_h")
+        st.pc += [mw >= 1, mh >= 1]
+        pad = st.new("AlignedPadding", {"pid": z3.Int("pad0"), "relative": False, "width": mw, "height": mh, "size": size_rec(mw, mh)})
+        eng.classes.setdefault("AlignedPadding", ("Padding",))
+        eng.genv["AlignedPadding"] = ClassV("AlignedPadding")
+        eng.genv["_Size"] = fn_size("Size")
+        st.H(W.self_)["_padding"] = pad
+        W.pad = pad
+        mx = lambda x, y: z3.If(to_z3(x) > to_z3(y), to_z3(x), to_z3(y))
+        eng.methods[("AlignedPadding", "get_padded_size")] = lambda e, s, recv, a, k: [(size_rec(mx(a[0].f["width"], mw), mx(a[0].f["height"], mh)), s)]
+        st.H(W.self_)["_padded_size"] = size_rec(mx(W.w0, mw), mx(W.h0, mh))
+        w, h = z3.Ints("new_w new_h")
+        st.pc += [w >= 1, h >= 1]
+
+        def check(eng, k, val, s, snap):
+            it = s.H(W.self_)
+            eng.oblige("size-and-padded-size-updated-together(padded-size=max-of-minimum-and-render-size-per-axis)", s,
+                       And(k != "raise", Eq(s.H(W.rdata)["size"], (w, h)), Eq(it["_padded_size"], (mx(w, mw), mx(h, mh))),
+                           same_state(W, s, snap, ("size", "psize"))), prop="C08", kind="post", replay="C08.set_padding")
+        return dict(render_size=size_rec(w, h)), check
+    return [("size", setup), ("size,aligned-padding-in-effect", setup_aligned)]
 
 
 def padding_cases():
